@@ -1,0 +1,14 @@
+//go:build verif
+
+package portforwarding
+
+import (
+	"io"
+	"net"
+)
+
+// VerifToBytes exposes toBytes to the verification harness.
+func VerifToBytes(a net.Addr, fwdType int) []byte { return toBytes(a, fwdType) }
+
+// VerifReadPacket exposes readPacket to the verification harness.
+func VerifReadPacket(r io.Reader) (net.Addr, byte, error) { return readPacket(r) }
